@@ -249,8 +249,7 @@ def run_and_judge(ctx, programs, trace_cfg, trace_tla, name, chunks=None, profil
         return []
     prop = prop or ctx.prop
     chunks = max(1, min(chunks or NCPU - 2, len(programs)))
-    size = (len(programs) + chunks - 1) // chunks
-    pieces = [programs[i:i + size] for i in range(0, len(programs), size)]
+    pieces = [programs[i::chunks] for i in range(chunks)]   # round-robin: balances long and short programs
     build_harness(profile)
     t_start = time.time()
 
